@@ -264,7 +264,17 @@ impl<'a> TypeEnt<'a> {
                 ErrorCode::MismatchedKinds,
             )),
             Type::Subtype(subtype) => subtype.type_mark().selected(ctx, prefix_pos, suffix),
-            Type::Access(subtype, ..) => subtype.type_mark().selected(ctx, prefix_pos, suffix),
+            Type::Access(subtype, ..) => {
+                // The implicit dereference of the prefix only applies once
+                if subtype.base().is_access() {
+                    Err(Diagnostic::invalid_selected_name_prefix(
+                        &self,
+                        &prefix_pos.pos(ctx),
+                    ))
+                } else {
+                    subtype.type_mark().selected(ctx, prefix_pos, suffix)
+                }
+            }
             Type::Alias(alias) => alias.selected(ctx, prefix_pos, suffix),
             Type::Array { .. }
             | Type::File { .. }
@@ -396,13 +406,18 @@ impl<'a> BaseType<'a> {
     }
 
     pub fn array_type(&self) -> Option<(TypeEnt<'a>, &'a Vec<Option<BaseType<'a>>>)> {
+        // The implicit dereference of an access type only applies once
+        let typ = if let Type::Access(ref subtype, ..) = self.kind() {
+            subtype.base()
+        } else {
+            *self
+        };
+
         if let Type::Array {
             elem_type, indexes, ..
-        } = self.kind()
+        } = typ.kind()
         {
             Some((*elem_type, indexes))
-        } else if let Some(accessed_typ) = self.accessed_type() {
-            accessed_typ.array_type()
         } else {
             None
         }
